@@ -88,7 +88,11 @@ func TestVerifC24(t *testing.T) {
 	for i := 0; i < n; i++ {
 		var rules []Rule
 		for k := 0; k < 1+r.Intn(3); k++ {
-			rules = append(rules, Rule{Pattern: lgRandNode(r, 2, m, universe).lgRender(), Token: 1 + r.Intn(31), Precedence: r.Intn(3)})
+			tok := 1 + r.Intn(31)
+			if r.Intn(8) == 0 {
+				tok = 30 + r.Intn(4) // around the 6-bit limit of a packed cell: 31 fits, 32 and 33 must be rejected
+			}
+			rules = append(rules, Rule{Pattern: lgRandNode(r, 2, m, universe).lgRender(), Token: tok, Precedence: r.Intn(3)})
 		}
 		one(rules)
 	}
@@ -96,6 +100,9 @@ func TestVerifC24(t *testing.T) {
 	for _, fam := range [][]Rule{
 		{{Pattern: `[\x80-\x8f]+`, Token: 1}, {Pattern: `[\x90-\xff]+`, Token: 2}, {Pattern: `a`, Token: 3}},
 		{{Pattern: `[\x00-\x7f]+`, Token: 1}},
+		{{Pattern: `[a-z]+`, Token: 31}, {Pattern: `[0-9]+`, Token: 30}},
+		{{Pattern: `[a-z]+`, Token: 32}},
+		{{Pattern: `[a-z]+`, Token: 33}, {Pattern: `[0-9]+`, Token: 32}},
 		{{Pattern: `[^\x00-\x7f]+`, Token: 2}, {Pattern: `[a-z]+`, Token: 1}},
 		{{Pattern: `[\x20-\x7f]`, Token: 4}, {Pattern: `[\x80-\xff]`, Token: 5}},
 		{{Pattern: `[\x7f-\xff]+`, Token: 7}},
